@@ -246,6 +246,11 @@ DIRECTED_HOSTS = ["fr.facebook.com", "fr-FR.facebook.com", "www.lemonde.fr", "m.
                   "fr.foo.ck", "a.b.c.d.example.org", "github.io", "httpbin.org", "blogspot.com", "pvt.k12.ma.us", "\x00example.com", "\x00 example.com", " \x7f www.Example.com\x00 ", "\tm.example.com\x01"]
 
 
+from vf.gen.hosts import TRICKY_HOSTS
+DIRECTED_HOSTS += [h for h in TRICKY_HOSTS if h not in DIRECTED_HOSTS]
+DIRECTED_URLS += ["%s/p?x=1" % h for h in TRICKY_HOSTS[:20]] + ["http://fr.%s/" % h for h in TRICKY_HOSTS[20:]]
+
+
 def run(ctx):
     m = U()
     pr = Probes()
